@@ -85,6 +85,23 @@ func (x *VC) resolveType(s string, pkg *types.Package) types.Type {
 			}
 		}
 	}
+	// unqualified name from another package's contract (expanded footprints): unique repo-wide?
+	var found types.Type
+	n := 0
+	for _, sp := range x.eng.prog.AllPackages() {
+		if !strings.HasPrefix(sp.Pkg.Path(), repoPrefix) {
+			continue
+		}
+		if o := sp.Pkg.Scope().Lookup(s); o != nil {
+			if t, ok := o.(*types.TypeName); ok {
+				found = t.Type()
+				n++
+			}
+		}
+	}
+	if n == 1 {
+		return found
+	}
 	x.refuse("unknown type %q in specification", s)
 	return nil
 }
@@ -203,9 +220,27 @@ func (x *VC) ev(e *SExpr, env *SEnv) *Val {
 			ne.bound[k] = v
 		}
 		var decls []string
+		var ranges []string
 		for _, qv := range e.Vars {
 			name := "qv$" + qv.Name
 			var v *Val
+			if qv.In != nil {
+				// element quantification over a slice: the bound variable is the ABSOLUTE index into the
+				// backing array, so that (select arr a) is a trigger matching every element access
+				sl := x.ev(qv.In, env)
+				if sl.K != KSlice {
+					x.specFail(e, "`%s in ...` needs a slice", qv.Name)
+				}
+				var et types.Type
+				if st, ok := sl.GT.Underlying().(*types.Slice); ok {
+					et = st.Elem()
+				}
+				decls = append(decls, "("+name+" "+x.idxSort()+")")
+				ranges = append(ranges, x.cmpS("<=", sl.Off, name), x.cmpS("<", name, x.addS(sl.Off, sl.Len)))
+				ev := &Val{K: KScalar, T: sSel(sl.Arr, name), S: sl.ES, GT: et}
+				ne.bound[qv.Name] = ev
+				continue
+			}
 			switch qv.Type {
 			case "int":
 				v = &Val{K: KScalar, T: name, S: x.idxSort(), GT: tInt}
@@ -225,7 +260,22 @@ func (x *VC) ev(e *SExpr, env *SEnv) *Val {
 			decls = append(decls, "("+name+" "+v.S+")")
 		}
 		body := x.ev(e.Args[0], &ne)
-		return bval("(" + e.Op + " (" + strings.Join(decls, " ") + ") " + body.T + ")")
+		bt := body.T
+		if len(ranges) > 0 {
+			if e.Op == "forall" {
+				bt = sImp(sAnd(ranges...), bt)
+			} else {
+				bt = sAnd(append(ranges, bt)...)
+			}
+		}
+		if len(e.Args) > 1 {
+			var ts []string
+			for _, t := range e.Args[1:] {
+				ts = append(ts, x.ev(t, &ne).T)
+			}
+			bt = "(! " + bt + " :pattern (" + strings.Join(ts, " ") + "))"
+		}
+		return bval("(" + e.Op + " (" + strings.Join(decls, " ") + ") " + bt + ")")
 	}
 	x.specFail(e, "unsupported expression form %s", e.Op)
 	return nil
@@ -655,6 +705,23 @@ func (x *VC) evCall(e *SExpr, env *SEnv) *Val {
 				return x.loadAddr(v.A, env.cur)
 			}
 			return x.loadAddr(&Addr{Kind: ADeref, Base: v.T, ElemT: pt.Elem()}, env.cur)
+		case "sameFirst":
+			// both slices are non-empty with the same first element, or the second is empty
+			a, b := x.ev(args[0], env), x.ev(args[1], env)
+			if a.K != KSlice || b.K != KSlice {
+				x.specFail(e, "sameFirst needs two slices")
+			}
+			return bval(sOr(sEq(b.Len, x.ilit(0)), sAnd(x.cmpS("<", x.ilit(0), a.Len), sEq(sSel(a.Arr, a.Off), sSel(b.Arr, b.Off)))))
+		case "suffixOf", "sameSlice":
+			// representation-level relations between slice values (same backing array)
+			a, b := x.ev(args[0], env), x.ev(args[1], env)
+			if a.K != KSlice || b.K != KSlice {
+				x.specFail(e, "%s needs two slices", name)
+			}
+			if name == "sameSlice" {
+				return bval(sAnd(sEq(a.Arr, b.Arr), sEq(a.Off, b.Off), sEq(a.Len, b.Len)))
+			}
+			return bval(sAnd(sEq(a.Arr, b.Arr), x.cmpS("<=", b.Off, a.Off), sEq(x.addS(a.Off, a.Len), x.addS(b.Off, b.Len))))
 		case "spawned":
 			// number of `go f()` statements executed for f (by SSA function name)
 			if args[0].Op != "str" {
@@ -954,11 +1021,12 @@ func (x *VC) invokeAlt(recv *Val, ifaceT types.Type, m *types.Func, args []*Val,
 
 func (x *VC) typeInvFor(a *Addr) *TypeInv {
 	n := namedOf(a.Owner)
-	if n == nil || len(a.PathN) != 1 {
+	if n == nil || len(a.PathN) == 0 {
 		return nil
 	}
+	path := strings.Join(a.PathN, "/")
 	for _, ti := range x.eng.db.TypeInvs {
-		if ti.Type == n.Obj().Name() && ti.Field == a.PathN[0] && n.Obj().Pkg() != nil && n.Obj().Pkg().Path() == ti.Pkg {
+		if ti.Type == n.Obj().Name() && ti.Field == path && n.Obj().Pkg() != nil && n.Obj().Pkg().Path() == ti.Pkg {
 			return ti
 		}
 	}
@@ -1426,6 +1494,16 @@ func (fr *Frame) loopHeader(h *ssa.BasicBlock, st *State, reach string) (*State,
 		}
 	}
 	nreach := x.define(fmt.Sprintf("loop%d_iter", ord), "Bool", reach)
+	// (2a) automatic invariant of `range` loops over slices: the hidden index starts at -1 and only grows
+	for _, ins := range h.Instrs {
+		phi, ok := ins.(*ssa.Phi)
+		if !ok {
+			break
+		}
+		if phi.Comment == "rangeindex" {
+			x.assume(nreach, sAnd(x.cmpS("<=", x.ilit(-1), fr.vals[phi].T), x.cmpS("<=", fr.vals[phi].T, x.ilit(4611686018427387904))))
+		}
+	}
 	// (2b) automatic frame invariant: components outside the contract's modifies clause change only
 	// at objects allocated since function entry (checked again on every back edge)
 	if fr.top && x.c != nil && !x.c.ModAll && !all {
@@ -1577,6 +1655,11 @@ func (fr *Frame) backEdge(from, h *ssa.BasicBlock, st *State) {
 			lbl = fmt.Sprintf("%d", i)
 		}
 		x.addObl(fmt.Sprintf("loop%d:invariant-preserved", ord), lbl, pos, reach, c.T)
+	}
+	for _, phi := range phis {
+		if phi.Comment == "rangeindex" {
+			x.addObl(fmt.Sprintf("loop%d:range-index", ord), "", pos, reach, sAnd(x.cmpS("<=", x.ilit(-1), fr.vals[phi].T), x.cmpS("<=", fr.vals[phi].T, x.ilit(4611686018427387904))))
+		}
 	}
 	for _, k := range fr.hdrAuto[h] {
 		cp := x.comps[k]
